@@ -9,7 +9,7 @@ import (
 	"github.com/thomasjungblut/go-sstables/vrt"
 )
 
-// H_C11_DBFaults: a failing write system call at any position of a memstore flush or of a compaction is reported
+// H_C11_DBFaults: a failing file-system call (create, write, rename, unlink, mkdir) at any position of a memstore flush or of a compaction is reported
 // by the step (the flusher / compactor then stops the process); it never reports success, the WAL file is not
 // removed and the table not installed (flush), no success flag is written and nothing is reflected (compaction);
 // and the directory the stopped process leaves behind recovers to the acknowledged state.
@@ -23,7 +23,7 @@ func H_C11_DBFaults() {
 	vrt.Assert(h.open(MemstoreSizeBytes(math.MaxUint64), WriteBufferSizeBytes(64), ReadBufferSizeBytes(64)) == nil, "dbfaults/open-no-error")
 	h.put(key, []byte{vrt.Byte("v1")})
 	scenario := vrt.Choose("scenario", 2)
-	k := vrt.Range("fault", 0, 14)
+	k := vrt.Range("fault", 0, 34)
 	if scenario == 0 {
 		// ---- flush ----
 		h.db.rwLock.Lock()
@@ -34,13 +34,13 @@ func H_C11_DBFaults() {
 		before := h.tables()
 		a := *h.pending
 		h.pending = nil
-		h.fs.ArmWriteFault(k)
+		h.fs.ArmOpFault(k)
 		var ferr error
 		h.inBackground = true
 		vrt.RunAs(1, func() { ferr = executeFlush(h.db, a) })
 		h.inBackground = false
-		hit := h.fs.FaultHit()
-		h.fs.DisarmWriteFault()
+		hit := h.fs.OpFaultHit()
+		h.fs.DisarmOpFault()
 		if hit {
 			vrt.Reach("dbfaults/flush-write-failed")
 			vrt.Assert(ferr != nil, "dbfaults/flush-reports-the-write-failure")
@@ -61,10 +61,10 @@ func H_C11_DBFaults() {
 		h.db.compactedMaxSizeBytes = math.MaxUint64
 		h.db.compactionFileThreshold = 1
 		before := h.tables()
-		h.fs.ArmWriteFault(k)
+		h.fs.ArmOpFault(k)
 		meta, cerr := executeCompaction(h.db)
-		hit := h.fs.FaultHit()
-		h.fs.DisarmWriteFault()
+		hit := h.fs.OpFaultHit()
+		h.fs.DisarmOpFault()
 		if hit {
 			vrt.Reach("dbfaults/compaction-write-failed")
 			vrt.Assert(cerr != nil, "dbfaults/compaction-reports-the-write-failure")
